@@ -16,12 +16,21 @@ structure HSys where
   pay : Nat → Msg        -- payload of sender t's single event
   icpt : Nat → Nat := id -- the collection's id interceptor
   nS : Nat
+  kinds : Bool := false  -- the consumer sees change types (a `Collection.Pull`): the observation lists them
   want : Bool := false   -- the consumer is blocked in a receive
   sawClose : Bool := false
 
 def HSys.payload (h : HSys) : Ev → Msg := fun e => h.pay e.sender
 
 def showTags (ms : List Msg) : String := ",".intercalate (ms.map fun m => toString m.tag)
+
+def kindLetter : Kind → String
+  | .add => "a" | .update => "u" | .remove => "r" | .replace => "p"
+
+def parseKind? : String → Option Kind
+  | "a" => some .add | "u" => some .update | "r" => some .remove | "p" => some .replace | _ => none
+
+def showKindTags (ms : List Msg) : String := ",".intercalate (ms.map fun m => kindLetter m.kind ++ toString m.tag)
 
 /-- live goroutines of the subscription -/
 def liveCount (h : HSys) : Nat :=
@@ -36,7 +45,7 @@ def sobs (h : HSys) : String :=
     if S.pc = .idle then (if S.results.isEmpty then "-" else "d") else "b")
   let pend := if h.want then "?" else ""
   let cl := if h.sawClose then "x" else ""
-  s!"G={liveCount h};W={ws};C=[{showTags (h.s.pipe 0).out}]{pend}{cl}"
+  s!"G={liveCount h};W={ws};C=[{if h.kinds then showKindTags (h.s.pipe 0).out else showTags (h.s.pipe 0).out}]{pend}{cl}"
 
 def sfull (h : HSys) : String :=
   let ss := (List.range h.nS).map fun t =>
@@ -99,7 +108,7 @@ def ssettle : Nat → List HSys → List String → List HSys → List HSys
       | ss => ssettle fuel (ss ++ work) (key :: seen) done
 
 def parseMsgs (s : String) : Option (List Msg) :=
-  if s = "-" then some [] else (s.splitOn ",").mapM fun x => (parseNat? x).map fun id => (⟨id, false, 0⟩ : Msg)
+  if s = "-" then some [] else (s.splitOn ",").mapM fun x => (parseNat? x).map fun id => (⟨id, .add, 0⟩ : Msg)
 
 /-- the closed family of named id interceptors shared with the harness (which numbers the spellings of item
 `k` as `4k … 4k+3`, the canonical one first) -/
@@ -108,10 +117,11 @@ def parseIcpt? : String → Option (Nat → Nat)
   | "fold4" => some fun n => n - n % 4
   | _ => none
 
-/-- `pinit hasEx exMerge hasPid icpt rawTarget seedIds nS pre`: `rawTarget` is the id as the subscriber spells
-it, `seedIds` are stored ids; `pre` = the context is already cancelled when the subscription is made -/
+/-- `pinit hasEx exMerge hasPid icpt rawTarget seedIds nS pre kinds`: `rawTarget` is the id as the subscriber spells
+it, `seedIds` are stored ids (seed values are ADD changes); `pre` = the context is already cancelled when the
+subscription is made; `kinds` = the consumer reports change types -/
 def sInit : List String → Option HSys
-  | [hasEx, exMerge, hasPid, icpt, target, seeds, nS, pre] => do
+  | [hasEx, exMerge, hasPid, icpt, target, seeds, nS, pre, kinds] => do
     let hasEx ← parseBool? hasEx
     let exMerge ← parseBool? exMerge
     let hasPid ← parseBool? hasPid
@@ -120,19 +130,20 @@ def sInit : List String → Option HSys
     let seeds ← parseMsgs seeds
     let nS ← parseNat? nS
     let pre ← parseBool? pre
+    let kinds ← parseBool? kinds
     let p : PConfig := { hasEx := hasEx, exMerge := exMerge, hasPid := hasPid, target := pullIDTarget icpt target,
                          fixed := true, keep := fun _ => true, fwQ := seeds }
     let s0 : Sys := ⟨init fun _ => 1, fun _ => p⟩
-    let s1 := srun (fun _ => ⟨0, false, 0⟩) s0
+    let s1 := srun (fun _ => ⟨0, .update, 0⟩) s0
       ((if pre then [SMove.cancel 0] else []) ++ [.bus (.lSpawn 0), .bus (.lRegister 0)])
-    some { s := s1, pay := fun _ => ⟨0, false, 0⟩, icpt := icpt, nS := nS }
+    some { s := s1, pay := fun _ => ⟨0, .update, 0⟩, icpt := icpt, nS := nS, kinds := kinds }
   | _ => none
 
 def sMacro (h : HSys) : List String → Option HSys
   | ["write", t, id, rm, tag] => do
     let t ← parseNat? t
     let id ← parseNat? id
-    let rm ← parseBool? rm
+    let rm ← parseKind? rm
     let tag ← parseNat? tag
     let h1 := { h with pay := upd h.pay t (changeOf h.icpt id rm tag) }
     (sstep h1.payload h1.s (.bus (.sSnapshot t))).map fun s' => { h1 with s := s' }
